@@ -149,3 +149,72 @@ Example C01_example :
 Proof. vm_compute. repeat split. Qed.
 Example C01_example_env_ok : env_ok ex_env ex_e.
 Proof. cbv [env_ok ex_e ex_env in_range sgn width]. repeat split; vm_compute; congruence. Qed.
+
+(* ---------- the rewriting methods regenerated from hdl/_ast.py on every run (Gen/DerivedGen.v) equal the model ---------- *)
+From V.Proofs Require GenEqDerived.
+From V.Gen Require DerivedGen.
+
+Theorem C01_translated_mux sel a b : DerivedGen.g_mux sel a b = mk_mux sel a b.
+Proof. exact (GenEqDerived.gen_mux_eq sel a b). Qed.
+Print Assumptions C01_translated_mux.
+Theorem C01_translated_getitem_int e k : DerivedGen.g_getitem_int e k = mk_getitem_int e k.
+Proof. exact (GenEqDerived.gen_getitem_int_eq e k). Qed.
+Print Assumptions C01_translated_getitem_int.
+(* value[start:stop:step] for every Python slice object, including all stepped and negative forms *)
+Theorem C01_translated_getitem_slice e k : 0 <= ewidth e -> DerivedGen.g_getitem_slice e k = mk_getitem_key e k.
+Proof. exact (GenEqDerived.gen_getitem_slice_eq e k). Qed.
+Print Assumptions C01_translated_getitem_slice.
+Theorem C01_translated_abs e : wf_shape (shape_of e) = true -> DerivedGen.g_abs e = Some (mk_abs e).
+Proof. exact (GenEqDerived.gen_abs_eq e). Qed.
+Print Assumptions C01_translated_abs.
+(* shift_left / shift_right for ANY integer amount (negative amounts go the other way) *)
+Theorem C01_translated_shift_left e n : wf_shape (shape_of e) = true -> DerivedGen.g_shift_left e n = Some (mk_shl e n).
+Proof. exact (GenEqDerived.gen_shift_left_eq e n). Qed.
+Print Assumptions C01_translated_shift_left.
+Theorem C01_translated_shift_right e n : wf_shape (shape_of e) = true -> DerivedGen.g_shift_right e n = Some (mk_shr e n).
+Proof. exact (GenEqDerived.gen_shift_right_eq e n). Qed.
+Print Assumptions C01_translated_shift_right.
+Theorem C01_translated_rotate_left e n : 0 <= ewidth e -> DerivedGen.g_rotate_left e n = Some (mk_rotate_left e n).
+Proof. exact (GenEqDerived.gen_rotate_left_eq e n). Qed.
+Print Assumptions C01_translated_rotate_left.
+Theorem C01_translated_rotate_right e n : 0 <= ewidth e -> DerivedGen.g_rotate_right e n = Some (mk_rotate_right e n).
+Proof. exact (GenEqDerived.gen_rotate_right_eq e n). Qed.
+Print Assumptions C01_translated_rotate_right.
+Theorem C01_translated_replicate e c :
+  DerivedGen.g_replicate e c = if c <? 0 then None else Some (mk_replicate e (Z.to_nat c)).
+Proof. exact (GenEqDerived.gen_replicate_eq e c). Qed.
+Print Assumptions C01_translated_replicate.
+Theorem C01_translated_bit_select e off w : 0 <= ewidth e -> DerivedGen.g_bit_select e off w = mk_bit_select e off w.
+Proof. exact (GenEqDerived.gen_bit_select_eq e off w). Qed.
+Print Assumptions C01_translated_bit_select.
+Theorem C01_translated_word_select e off w : 0 <= ewidth e -> DerivedGen.g_word_select e off w = mk_word_select e off w.
+Proof. exact (GenEqDerived.gen_word_select_eq e off w). Qed.
+Print Assumptions C01_translated_word_select.
+
+(* bit_select / word_select with a constant offset fold into a plain slice exactly when the window fits, and the
+   folded value has the shape and the value of the part-select it replaces (the property repaired by fix F6) *)
+Theorem C01_bit_select_spec en e off w r : wf_expr e = true -> wf_expr off = true -> sgn (shape_of off) = false ->
+  env_ok en e -> 0 <= w -> mk_bit_select e off w = Some r ->
+  wf_expr r = true /\ shape_of r = Sh w false /\ denote en r = denote en (EPart e off w 1).
+Proof. exact (mk_bit_select_spec en e off w r). Qed.
+Print Assumptions C01_bit_select_spec.
+Theorem C01_word_select_spec en e off w r : wf_expr e = true -> wf_expr off = true -> sgn (shape_of off) = false ->
+  env_ok en e -> 1 <= w -> mk_word_select e off w = Some r ->
+  wf_expr r = true /\ shape_of r = Sh w false /\ denote en r = denote en (EPart e off w w).
+Proof. exact (mk_word_select_spec en e off w r). Qed.
+Print Assumptions C01_word_select_spec.
+
+(* value[start:stop:step]: bit j of the result is bit start + j*step of the operand (normalised indices) *)
+Theorem C01_step_slice_bits en e s n a j : (forall k, 0 <= k < Z.of_nat n -> 0 <= a + k * s) -> 0 <= j < Z.of_nat n ->
+  Z.testbit (denote en (mk_step_slice e a s n)) j = Z.testbit (denote en e) (a + j * s).
+Proof. exact (step_slice_bits en e s n a j). Qed.
+Print Assumptions C01_step_slice_bits.
+
+Example C01_getitem_example :
+  let s := ESig 0 (Sh 8 false) in let en : env := fun _ => 178 in     (* 0b10110010 *)
+  option_map (denote en) (mk_getitem_key s (Key (Some 6) None (Some (-2)))) = Some 2 /\     (* bits 6,4,2,0 *)
+  option_map (denote en) (mk_getitem_key s (Key None None (Some (-1)))) = Some 77 /\
+  option_map (denote en) (mk_bit_select s (EConst 4 (Sh 3 false)) 4) = Some 11 /\
+  mk_bit_select s (EConst 6 (Sh 3 false)) 4 = Some (EPart s (EConst 6 (Sh 3 false)) 4 1) /\
+  mk_getitem_int s 8 = None /\ option_map (denote en) (mk_getitem_int s (-1)) = Some 1.
+Proof. vm_compute. repeat split. Qed.
